@@ -1154,7 +1154,7 @@ def opts_sexp(opts: dict):
             opt(opts, "receives_named_value"), opt(opts, "trim_doctest_flags")]
 
 
-def wsecs_sexp(doc: dict):
+def wsecs_sexp(doc: dict, opts: dict | None = None):
     """The written structure as a term of the Coq type [list wsec]; None when the document uses something the
     Coq spec does not cover (Examples, `(type, optional)`, the `(type): ...` spelling of the unnamed mode)."""
     out = []
@@ -1166,6 +1166,9 @@ def wsecs_sexp(doc: dict):
             out.append(["text", sec["lines"]])
         elif k == "admonition":
             out.append(["adm", sec["header"], _o(sec.get("title")), sec["lines"]])
+        elif k == "examples":
+            out.append(["examples", opt(opts or {}, "trim_doctest_flags"), sec["header"], _o(sec.get("title")),
+                        [[ck == "examples", ls] for ck, ls in sec["chunks"]]])
         elif k in ITEM_KINDS:
             items = []
             for it in sec["items"]:
@@ -1630,7 +1633,7 @@ def explore_google(ctx, n: int, with_model: bool = True, exotic: float = 0.0):
             ctx.tie_failure("correspondence", "parse_google(model) vs Docstring.parse('google')", {"model": mo, "impl": impl},
                             _case_json("google", o, d, t))
     # (C) render / expectation / theorem instances
-    ws = [(r, wsecs_sexp(r[1])) for r in results]
+    ws = [(r, wsecs_sexp(r[1], r[0])) for r in results]
     ws = [(r, w) for r, w in ws if w is not None and model_ok(r[3]) and not (set(r[0]) & {"ignore_init_summary", "returns_type_in_property_summary"})]
     m_render = ctx.model([["grender", r[1]["indent"], w] for r, w in ws])
     m_expect = ctx.model([["gexpect", ctx_sexp(r[1]["parent"]), w] for r, w in ws])
